@@ -53,7 +53,7 @@ def main():
         def run_demo():
             s = open(out_dir + '/demo.py').read()
             # demos written for /tmp/sa/<ID> paths: point them at this scratch tree
-            for old in ('/tmp/sa/%s' % prop, '/tmp/sb/%s' % prop, '/tmp/sc/%s' % prop, '/tmp/sd/%s' % prop, '/tmp/se/%s' % prop, '/tmp/sf/%s' % prop, '/tmp/sg/%s' % prop, '/tmp/sh/%s' % prop, '/tmp/si/%s' % prop, '/tmp/sj/%s' % prop):
+            for old in ('/tmp/sa/%s' % prop, '/tmp/sb/%s' % prop, '/tmp/sc/%s' % prop, '/tmp/sd/%s' % prop, '/tmp/se/%s' % prop, '/tmp/sf/%s' % prop, '/tmp/sg/%s' % prop, '/tmp/sh/%s' % prop, '/tmp/si/%s' % prop, '/tmp/sj/%s' % prop, '/tmp/sk/%s' % prop):
                 s = s.replace(old, root)
             open(out_dir + '/demo_run.py', 'w').write(s)
             return sh(['/venv/bin/python', out_dir + '/demo_run.py'], cwd=root, env=env, timeout=3600)
